@@ -67,3 +67,33 @@ Print Assumptions C09_rm_frame.
 Theorem C09_no_empty_layer : forall ops ls, nonempty_layers ls -> nonempty_layers (fold_left sstep ops ls).
 Proof. exact srun_nonempty. Qed.
 Print Assumptions C09_no_empty_layer.
+
+(* ---- over the definitions REGENERATED on every run from cli/manipulations.py (tools/layers2v.py):
+   collect = _collect_scope_layers, write = _write_scope_layers, pick_set / pick_rm = the layer selection ---- *)
+From L Require Import LayerRec.
+From Dyn Require Import LayersGen LayersGenProps.
+(* the collected list is outermost first, innermost last, each layer with its own fields *)
+Theorem C09_collect_order : forall e, wf e -> collect e = outer_of e :: s_stack e.
+Proof. exact LayersGenProps.collect_order. Qed.
+Print Assumptions C09_collect_order.
+(* `@`^d selects the d-th layer counted from the innermost, deeper selectors are refused — for set and for rm *)
+Theorem C09_pick_set : forall ls d, 1 <= d ->
+  (d <= length ls -> exists i, pick_set ls d = Some i /\ nth_error ls i = nth_error (rev ls) (d - 1)) /\
+  (length ls < d -> pick_set ls d = None).
+Proof. exact LayersGenProps.pick_set_spec. Qed.
+Print Assumptions C09_pick_set.
+Theorem C09_pick_rm : forall ls d, 1 <= d ->
+  (d <= length ls -> exists i, pick_rm ls d = Some i /\ nth_error ls i = nth_error (rev ls) (d - 1)) /\
+  (length ls < d -> pick_rm ls d = None).
+Proof. exact LayersGenProps.pick_rm_spec. Qed.
+Print Assumptions C09_pick_rm.
+(* writing the layers back loses nothing and confuses nothing: an edit of one collected layer, written back and
+   collected again, shows exactly that edit; every other layer keeps all its fields and its position *)
+Theorem C09_layers_never_confused : forall e i f, wf e -> (forall l, nonempty (l_scope l) = true -> nonempty (l_scope (f l)) = true) ->
+  collect (write (upd i f (collect e))) = upd i f (collect e) /\
+  forall j, j <> i -> nth_error (collect (write (upd i f (collect e)))) j = nth_error (collect e) j.
+Proof. exact LayersGenProps.edit_one_layer. Qed.
+Print Assumptions C09_layers_never_confused.
+Theorem C09_write_collect : forall e, wf e -> write (collect e) = e.
+Proof. exact LayersGenProps.write_collect. Qed.
+Print Assumptions C09_write_collect.
